@@ -78,11 +78,18 @@ def goodOrders : List (List Field) :=
 /-- the fields whose drop does something the model tracks -/
 def coreFields (fs : List Field) : List Field := fs.filter (fun f => f != Field.plain)
 
+/-- `Drop for RotoConstant` calls the constant's drop function exactly once, whatever the size of the
+    constant's type, and not after it gave the slot back -/
+def constDropGoodB (body : List (SizeGuard × DropAct)) : Bool :=
+  dropFnCalls body true == 1 && dropFnCalls body false == 1
+    && !dropFnAfterDealloc body true && !dropFnAfterDealloc body false
+
 /-- what the theorems need from the implementation's declarations -/
 def goodB (F : Facts) : Bool :=
   F.handleHoldsArc && F.constsCloned && F.fnsCloned
     && decide (F.freeSites = [FreeSite.wrapperDrop]) && goodOrders.contains (coreFields F.moduleFields)
     && F.closureKeepsArc && F.dataHolders.all Holder.heldByHandles && F.testHoldsHandle
+    && constDropGoodB F.constDrop && decide (F.fnsKeep = KeepKey.perArc)
 
 structure Good (F : Facts) : Prop where
   holds : F.handleHoldsArc = true
@@ -93,10 +100,13 @@ structure Good (F : Facts) : Prop where
   closure : F.closureKeepsArc = true
   data : F.dataHolders.all Holder.heldByHandles = true
   test : F.testHoldsHandle = true
+  constDrop : ∀ zst, dropFnCalls F.constDrop zst = 1
+  keep : F.fnsKeep = KeepKey.perArc
 
 theorem good_of_goodB {F : Facts} (h : goodB F = true) : Good F := by
-  simp only [goodB, Bool.and_eq_true, decide_eq_true_eq, List.contains_iff_mem] at h
-  exact ⟨h.1.1.1.1.1.1.1, h.1.1.1.1.1.1.2, h.1.1.1.1.1.2, h.1.1.1.1.2, h.1.1.1.2, h.1.1.2, h.1.2, h.2⟩
+  simp only [goodB, constDropGoodB, Bool.and_eq_true, decide_eq_true_eq, List.contains_iff_mem, beq_iff_eq] at h
+  obtain ⟨⟨⟨⟨⟨⟨⟨⟨⟨h1, h2⟩, h3⟩, h4⟩, h5⟩, h6⟩, h7⟩, h8⟩, ⟨⟨⟨c1, c2⟩, _⟩, _⟩⟩, h9⟩ := h
+  exact ⟨h1, h2, h3, h4, h5, h6, h7, h8, fun zst => by cases zst <;> assumption, h9⟩
 
 /-! ### primitive effects, projection by projection -/
 
@@ -308,6 +318,15 @@ theorem freeCode_count (s : St) (k : Nat) (h : s.mapped k = true) (x : Res) :
     List.count x (freeCode k s).released = List.count x s.released + (if x = .code k then 1 else 0) := by
   simpa [St.relCount] using freeCode_relCount s k h x
 
+/-- under admissible facts `Drop for RotoConstant` calls every constant's drop function exactly once:
+    the facts-driven drop is the plain one -/
+theorem dropRotoConstants_eq {F : Facts} (hG : Good F) (k : Nat) : ∀ (n : Nat) (s : St),
+    dropRotoConstants F k n s = dropScriptConsts k n s
+  | 0, _ => rfl
+  | n + 1, s => by
+    simp only [dropRotoConstants, dropScriptConsts, dropRotoConstants_eq hG k n s, hG.constDrop, releaseN]
+    simp
+
 /-! ### the drop of a module, summarised -/
 
 /-- what `dropModule` does to a state in which Code k is mapped, whatever the
@@ -356,7 +375,7 @@ theorem dropModule_spec {F : Facts} (hG : Good F) (k : Nat) (s : St) (hm : s.map
   cases hkc : (s.info k).keepConst <;> cases hkf : (s.info k).keepClos <;>
   rcases hord with h | h | h | h | h | h | h | h | h | h | h | h <;> rw [h] <;>
   constructor <;>
-  simp [St.relCount, dropFields, dropField, hw, hkc, hkf, hm, freeCode_mapped, freeCode_faults, freeCode_count,
+  simp [St.relCount, dropFields, dropField, dropRotoConstants_eq hG, hw, hkc, hkf, hm, freeCode_mapped, freeCode_faults, freeCode_count,
     dropScriptConsts_faults, Nat.add_comm, Nat.add_left_comm, Nat.add_assoc]
 
 /-! ### the invariant -/
